@@ -15,7 +15,8 @@ pub struct CompressorBuilder {
 	///
 	/// A ratio of `2.0` (or 2 to 1) means an increase of 3dB will
 	/// become an increase of 1.5dB. Ratios between `0.0` and `1.0`
-	/// will actually expand the audio.
+	/// will actually expand the audio. A ratio of exactly `0.0` has
+	/// no effect on the dynamics, like a ratio of `1.0`.
 	pub ratio: Value<f64>,
 	/// How much time it takes for the volume attenuation to ramp up once
 	/// the input volume exceeds the threshold.
@@ -68,7 +69,8 @@ impl CompressorBuilder {
 	///
 	/// A ratio of `2.0` (or 2 to 1) means an increase of 3dB will
 	/// become an increase of 1.5dB. Ratios between `0.0` and `1.0`
-	/// will actually expand the audio.
+	/// will actually expand the audio. A ratio of exactly `0.0` has
+	/// no effect on the dynamics, like a ratio of `1.0`.
 	#[must_use = "This method consumes self and returns a modified CompressorBuilder, so the return value should be used"]
 	pub fn ratio(self, ratio: impl Into<Value<f64>>) -> Self {
 		Self {
